@@ -102,12 +102,9 @@ func (m *mesh) start(n *node, silSnap, nfSnap []byte) {
 	}
 	n.in = in
 	n.up = true
-	n.lg.Add(inst.Event{Ev: "cfg", Data: map[string]any{
-		"gw": int64(m.cfg.T.gw / time.Millisecond), "gi": int64(m.cfg.T.gi / time.Millisecond), "ri": int64(m.cfg.T.ri / time.Millisecond),
-		"integs": m.cfg.Integs, "inhibit": false, "rt": int64(resolveTimeout / time.Millisecond), "windows": []inst.Window{}, "mute": []tiv{}, "active": []tiv{}, "gkp": "{}",
-		"wait": int64(time.Duration(m.position(n)) * peerTimeout / time.Millisecond), "maxwait": int64(time.Duration(len(m.names)-1) * peerTimeout / time.Millisecond),
-		"t0": inst.Ms(),
-	}})
+	cd := m.cfg.event(nil, int64(time.Duration(m.position(n))*peerTimeout/time.Millisecond), int64(time.Duration(len(m.names)-1)*peerTimeout/time.Millisecond))
+	cd["t0"] = inst.Ms()
+	n.lg.Add(inst.Event{Ev: "cfg", Data: cd})
 	// what the log holds after loading the snapshot is known to this instance
 	if nfSnap != nil {
 		m.noteEntries(n, nfSnap)
